@@ -328,6 +328,15 @@ CheckSpan(i) ==
                           /\ (hasK /\ kv.sp # NoSpan) => y.spanned.sp = ByteSpan(kv.sp, offs)
                           /\ (hasK /\ y.ty \in {"array_spanned", "table_spanned"}) => SpansOkInner(t, offs, kv, y.spanned.inner)
                        THEN TRUE ELSE Report(i, "span-spanned-range", [ty |-> y.ty, sp |-> y.spanned.sp]) /\ FALSE
+               \* the editable-document route agrees with the text route (C13) and locates errors by key path (C15)
+               \* (targets holding Spanned<..> cannot be decoded from an editable document: it has no spans)
+               /\ IF y.from_docmut.res \in {"none"} \/ y.ty \in {"array_spanned", "table_spanned"} \/ y.from_docmut.res = y.plain.res THEN TRUE
+                  ELSE Report(i, "span-docmut-verdict", [ty |-> y.ty, text_route |-> y.plain.res, docmut |-> y.from_docmut.res]) /\ FALSE
+               /\ (y.from_docmut.res = "ok" /\ y.plain.res = "ok") =>
+                    IF y.from_docmut.val = y.plain.val THEN TRUE ELSE Report(i, "span-docmut-value", [ty |-> y.ty]) /\ FALSE
+               /\ (y.from_docmut.res = "err" /\ hasK /\ (kv.k \notin KindOfTy(y.ty) \/ BadVariantSpan(y.ty, kv) # NoSpan)) =>
+                    IF y.from_docmut.span = <<>> /\ FindFrom(y.from_docmut.rendered, <<105, 110, 32, 96, 107, 96>>, 1) > 0
+                    THEN TRUE ELSE Report(i, "err-keypath-location", [ty |-> y.ty, span |-> y.from_docmut.span, rendered |-> y.from_docmut.rendered]) /\ FALSE
                \* C15: an unknown enum variant is located at the string that names it
                /\ (hasK /\ BadVariantSpan(y.ty, kv) # NoSpan) =>
                     IF y.plain.res = "err" /\ y.plain.err.msg_nonempty /\ y.plain.err.span = ByteSpan(BadVariantSpan(y.ty, kv), offs)
